@@ -1,18 +1,24 @@
 #!/bin/bash
-# benign_check.sh <dir with rNN.diff> <label> : for every behaviour-preserving patch, apply it to /repo, run all 20 checks
-# (in parallel), record every non-zero exit (= false alarm or undecided), revert. Results in /verif/benign/<label>/
+# benign_check.sh <dir with rNN.diff> <label> : for every behaviour-preserving patch, apply it to a scratch worktree of
+# /repo (/tmp/wt/B, ACTS_REPO), run all 20 checks in parallel, record every non-zero exit (= false alarm or undecided),
+# revert. Results in /verif/benign/<label>/. Never touches /repo or /verif/evidence.
 D=$1; L=$2; OUT=/verif/benign/$L; mkdir -p $OUT
+B=/tmp/wt/B
+if [ ! -d $B ]; then git -C /repo worktree add -q --detach $B HEAD && cp -al /repo/target $B/target; fi
+git -C $B checkout -q --detach $(git -C /repo rev-parse HEAD) 2>/dev/null
+export ACTS_REPO=$B VCHECK_SCRATCH_OUT=/tmp/benign_out
+mkdir -p /tmp/benign_out
 for p in $D/r*.diff; do
   n=$(basename $p .diff)
   cp $p $OUT/$n.diff
-  git -C /repo apply $p 2>/dev/null || { echo "$n: patch does not apply" | tee $OUT/$n.result; continue; }
+  git -C $B checkout -- . ; git -C $B apply $p 2>/dev/null || { echo "$n: patch does not apply" | tee $OUT/$n.result; continue; }
   /verif/vcheck C13 > /dev/null 2>&1   # warms the facts cache for this tree
-  printf "%s\n" 01 02 03 04 05 06 07 08 09 10 11 12 13 14 15 16 17 18 19 20 | xargs -P 10 -I{} sh -c '/verif/vcheck C{} > /tmp/benign_C{}.out 2>&1; echo "C{} rc=$?" > /tmp/benign_C{}.rc'
+  printf "%s\n" 01 02 03 04 05 06 07 08 09 10 11 12 13 14 15 16 17 18 19 20 | xargs -P 10 -I{} sh -c '/verif/vcheck C{} > /tmp/benign_out/C{}.out 2>&1; echo "C{} rc=$?" > /tmp/benign_out/C{}.rc'
   : > $OUT/$n.result
   for i in 01 02 03 04 05 06 07 08 09 10 11 12 13 14 15 16 17 18 19 20; do
-    rc=$(cat /tmp/benign_C$i.rc)
-    case "$rc" in *"rc=0") ;; *) echo "$rc" >> $OUT/$n.result; grep -E "^  violated|^UNDECIDED|^ERROR|Traceback" /tmp/benign_C$i.out | cut -c1-400 | head -5 >> $OUT/$n.result;; esac
+    rc=$(cat /tmp/benign_out/C$i.rc)
+    case "$rc" in *"rc=0") ;; *) echo "$rc" >> $OUT/$n.result; grep -E "^  violated|^UNDECIDED|^ERROR|Traceback" /tmp/benign_out/C$i.out | cut -c1-400 | head -5 >> $OUT/$n.result;; esac
   done
-  git -C /repo checkout -- .
+  git -C $B checkout -- .
   if [ -s $OUT/$n.result ]; then echo "== $n ALARM"; cat $OUT/$n.result; else echo "== $n quiet"; echo quiet > $OUT/$n.result; fi
 done
